@@ -261,13 +261,17 @@ func AfterStore() {
 
 var afterStore bool
 
+// maxMidOpGCs bounds the forced collections of one run (a collection costs milliseconds; with statement-granularity
+// yields a run passes millions of points).
+const maxMidOpGCs = 300
+
 //go:norace
 func point(sync bool) {
 	s := cur
 	t := s.cur
 	s.step++
 	t.steps++
-	if s.cfg.GCEvery > 0 && s.step >= s.nextGC {
+	if s.cfg.GCEvery > 0 && s.step >= s.nextGC && s.gcs < maxMidOpGCs {
 		s.nextGC = s.step + s.cfg.GCEvery
 		s.gcs++
 		probe[ProbeMidOpGC]++
